@@ -227,9 +227,12 @@ def family(t, sd):
     if t == 'quick':
         specs = [s for s in gen.l_seeded(71, 4000, offsets=True, satisfy=True) if any(v[1]['k'] in ('Boolean', 'Int') for v in s['vars'])][:1200]
         specs += knapsacks(72, 300) + gap_family()
+        # models without any integer variable: the entry points accept them too, and an invalid option is invalid there as well
+        specs += [s for s in gen.l_seeded(73, 1200, offsets=True, satisfy=True) if not any(v[1]['k'] in ('Boolean', 'Int') for v in s['vars'])][:150]
     else:
         specs = [s for s in gen.l_seeded(700 + sd, 30000, offsets=True, satisfy=True) if any(v[1]['k'] in ('Boolean', 'Int') for v in s['vars'])]
         specs += knapsacks(720 + sd, 3000) + gap_family()
+        specs += [s for s in gen.l_seeded(730 + sd, 8000, offsets=True, satisfy=True) if not any(v[1]['k'] in ('Boolean', 'Int') for v in s['vars'])][:1500]
     lim = os.environ.get('VERIF_LIMIT')
     if lim:
         specs = specs[::max(1, len(specs) // int(lim))]
@@ -322,7 +325,7 @@ def main(prop='C15'):
             'must_fail_twins': {'tried': tw[0], 'detected': tw[1]},
             'samples': [{'lm': it['lm'], 'ops': it['ops'][:3]} for it in items[:: max(1, len(items) // 3)][:3]],
             'exhaustive': False,
-            'family': 'seeded MILP members of L(3,3) + 4..7-variable knapsack-like MILPs (min, max and satisfy) x limits {0,1ns,1us,1ms,none} x gaps {none,0,1e-6,0.5,1,10,-0.0; invalid: -1,NaN,inf,-inf,-1e-9}; every invalid gap also through the builder wrapper',
+            'family': 'seeded MILP members of L(3,3), 4..7-variable knapsack-like MILPs (min, max and satisfy), the gap family (objective of the order of 1e4), continuous-only members of L(3,3) x limits {0,1ns,1us,1ms,none} x gaps {none,0,1e-6,0.5,1,10,-0.0; invalid: -1,NaN,inf,-inf,-1e-9}; every invalid gap also through the builder wrapper',
             'functions_encoded': ['solve_milp_lp_problem_with', 'builder::Microlp::{with_mip_gap,with_time_limit} + Solver::solve'],
             'solver': 'z3 %s' % z3.get_version_string(), 'driver_build_s': round(build_s, 1), 'check_s': round(time.time() - t0, 1),
         },
